@@ -445,7 +445,7 @@ class GeneratorSite(object):
         sites, ops, mult = expandPosition(spacegroup, xyz, sgoffset, eps)
         invariants = _findInvariants(ops)
         # shift self.xyz exactly to the special position
-        if mult > 1:
+        if len(invariants) > 1:
             xyzdups = numpy.array([op(xyz + self.sgoffset) - self.sgoffset for op in invariants])
             dxyz = xyzdups - xyz
             dxyz = numpy.mean(dxyz - dxyz.round(), axis=0)
